@@ -87,17 +87,45 @@ pub fn run_corrupt(line: &str) -> String {
             }
         }
         let original = sim.read_whole(&PathBuf::from(&name)).unwrap();
+        // (offset, kind, new byte)
+        let mut muts: Vec<(usize, usize, u8)> = vec![];
         for (i, off) in offsets.iter().enumerate() {
             lcg = (lcg * 1103515245 + 12345) & 0x7fff_ffff;
             let kind = i % 4;
-            let mut data = original.clone();
-            let old = data[*off];
+            let old = original[*off];
             let newb = match kind {
                 0 => old ^ (1 << ((lcg >> 8) & 7)),
                 1 => 0,
                 2 => 0xff,
                 _ => ((lcg >> 16) & 255) as u8,
             };
+            muts.push((*off, kind, newb));
+        }
+        // directed: the type byte of every fragment of a log file set to every other valid type
+        // (the checksum does not cover it); at most 64 fragments per file, the last ones first
+        if name.contains("wal-") || name.contains("MANIFEST") {
+            let mut hs: Vec<usize> = vec![];
+            let mut pos = 0usize;
+            while pos + 7 <= original.len() {
+                let in_block = pos % 32768;
+                if 32768 - in_block < 7 {
+                    pos += 32768 - in_block;
+                    continue;
+                }
+                let len = u16::from_le_bytes([original[pos + 4], original[pos + 5]]) as usize;
+                hs.push(pos);
+                pos += 7 + len;
+            }
+            for h in hs.iter().rev().take(64) {
+                for t in 0..4u8 {
+                    muts.push((*h + 6, 4, t));
+                }
+            }
+        }
+        for (off, kind, newb) in muts.iter() {
+            let (kind, newb) = (*kind, *newb);
+            let mut data = original.clone();
+            let old = data[*off];
             if newb == old {
                 continue;
             }
@@ -142,7 +170,7 @@ pub fn run_corrupt(line: &str) -> String {
                     }
                 }
             }));
-            let kinds = ["flip", "zero", "ff", "rand"];
+            let kinds = ["flip", "zero", "ff", "rand", "type"];
             match res {
                 Ok(s) => out.push(format!("{}@{}:{}:{}|{}", short(&name), off, kinds[kind], newb, s)),
                 Err(_) => out.push(format!("{}@{}:{}:{}|panic|-|-", short(&name), off, kinds[kind], newb)),
